@@ -1,17 +1,10 @@
-"""C13 — UUID recognizer. Theorems: Properties/C13.v. Tie: differential on the exported
-IsValidUUID (plus the internal helpers through the verif hook)."""
-import subprocess
-
+"""C13 — UUID recognizer. Theorems: Properties/C13.v."""
 import recog
-from vlib import MODEL_BIN, check_properties_file, go_build
 
-PROP = "C13"
-TOP = "IsValidUUID"
-INTERNAL = ["hasValidHyphens", "hasValidHexChars", "isMaxUUID", "isValidUUIDVersionAndVariant"]
 TRUSTED = [
-    "Coq 8.16.1 kernel (coqc, vm_compute in finite byte sweeps); no native_compute",
-    "Coq extraction to OCaml with ExtrOcamlBasic only; ocaml/main.ml line-protocol driver",
-    "hand-written Gallina mirror of validation/validationhelper/uuid.go (Helpers/Uuid.v), tied to /repo by the differential run recorded here",
+    "Coq 8.16.1 kernel (coqc; vm_compute only in sweeps over the 256 byte values and closed examples); no native_compute",
+    "Coq extraction to OCaml with ExtrOcamlBasic only (no Extract Constant / Extract Inductive of our own); ocaml/main.ml line-protocol driver",
+    "hand-written Gallina mirror of the Go recognizer, tied to /repo by the differential run recorded in this file",
     "harness/cmd/helperprobe (calls the rebuilt Go functions), harness/cmd/strgen (input corpus)",
 ]
 
@@ -19,58 +12,13 @@ TRUSTED = [
 def check(res):
     res.assumptions = TRUSTED
     res.coverage["trusted_base"] = TRUSTED
-    res.coverage["checker_cmd"] = "make -C coq -j16 && coqc -Q theories GV theories/Properties/C13.v"
-    check_properties_file(res, "theories/Properties/C13.v")
-    probe, hooked = recog.build_probe(res)
-    if probe is None:
-        return
-    inp = recog.gen_inputs("uuid", res.seed, res.tier)
-    mism = recog.differential(res, TOP, inp, probe, "exported entry point")
-    if mism is None:
-        return
-    n, distinct, verdicts = recog.stats(inp, recog.os.path.join(recog.scratch(), TOP + ".go.out"))
-    res.coverage.update({
-        "evaluations": n, "distinct_nontrivial": distinct,
-        "rule": "strgen uuid: 37 accepted bases (version x variant, nil, max in 3 casings) x every single-position "
-                "substitution by all 256 bytes; every pair of positions over a class alphabet; all lengths 0..40; "
-                "random case renderings; random hex-shaped and raw strings. distinct = distinct input strings; "
-                "verdict split in functions.IsValidUUID.go_verdicts",
-        "samples": [l.strip() for l in open(inp).readlines()[15:20]],
-    })
-    reported = 0
-    for hexin, g, m in mism[:5]:
-        sh, g2, m2 = recog.shrink(probe, TOP, hexin, g, m) if hexin != "<length mismatch>" else (hexin, g, m)
-        res.violation({
-            "kind": "spec-violation", "function": TOP, "input_hex": sh, "input_repr": repr(recog.unhex(sh)) if sh != "<length mismatch>" else sh,
-            "implementation": g2, "model_and_spec": m2,
-            "explanation": "C13_exact proves model = spec for every byte string; /repo's IsValidUUID differs from the model on this input (T accept, F reject, P panic)",
-            "replay": "bin/check C13 --replay <this file>"})
-        reported += 1
-    drift = {}
-    if hooked:
-        for fn in INTERNAL:
-            mi = recog.differential(res, fn, inp, probe, "internal helper (hook)")
-            if mi and mi != "unavailable":
-                drift[fn] = mi[:3]
-        # leaf over its whole finite domain
-        import os
-        leaf = os.path.join(recog.scratch(), "bytes256.in")
-        open(leaf, "w").write("".join("%d\n" % i for i in range(256)))
-        mi = recog.differential(res, "isValidHexChar", leaf, probe, "leaf, exhaustive over 256 bytes")
-        if mi and mi != "unavailable":
-            drift["isValidHexChar"] = mi[:3]
-    if drift:
-        res.coverage["internal_drift"] = drift
-        if not mism:
-            # internal helpers differ from their model namesakes, but on the whole corpus the exported
-            # function still equals the model (hence the spec): a rewrite, not a violation.
-            res.coverage["internal_drift_note"] = "exported function still equals model on the whole corpus"
+    recog.standard_check(
+        res, "C13", "theories/Properties/C13.v", "uuid", "IsValidUUID",
+        [(f, "uuid") for f in ("hasValidHyphens", "hasValidHexChars", "isMaxUUID", "isValidUUIDVersionAndVariant")],
+        [("isValidHexChar", 256)],
+        "strgen uuid: 37 accepted bases (version x variant, nil, max in 3 casings) x every single-position substitution "
+        "by all 256 bytes; every pair of positions over a class alphabet; all lengths 0..40; random case renderings; "
+        "random hex-shaped and raw strings. distinct_nontrivial = number of distinct input strings")
 
 
-def replay(payload):
-    probe, err = go_build("./cmd/helperprobe", "helperprobe_plain")
-    inp = payload["input_hex"] + "\n"
-    a = subprocess.run([probe, payload["function"]], input=inp, stdout=subprocess.PIPE, text=True).stdout.strip()
-    m = subprocess.run([MODEL_BIN, payload["function"]], input=inp, stdout=subprocess.PIPE, text=True).stdout.strip()
-    print("input=%r implementation=%s model/spec=%s" % (recog.unhex(payload["input_hex"]), a, m))
-    return 0 if a == m else 1
+replay = recog.standard_replay
